@@ -50,6 +50,7 @@ ObsInit == [act |-> {},        \* registered according to the hook events
             ever |-> {},       \* ever counted
             served |-> {},     \* connections for which a client holds proof of being served right now
             inbe |-> {},       \* connections with a request inside the backend right now (seen by the backend gate)
+            dead |-> {},       \* connections their client has found closed by the server
             stopped |-> FALSE, \* a Stop (or a Close / Unexport of an exported handler) has returned successfully
             late |-> {}]       \* connections on which a request was sent after that
 
@@ -70,10 +71,17 @@ IdealStep ==
             /\ bad' = bad \cup Tag(w)
             /\ stats' = Bump("accepts")
             /\ UNCHANGED <<dev, drift>>
+    \* (the server closes a connection and uncounts it a moment later: real time is involved, the observation must reproduce)
     [] e.ev = "cm.reject" ->
          /\ stats' = Bump("rejects")
+         /\ bad' = bad \cup Tag(IF o.act \cap o.dead # {}
+                                THEN {"[timed] a connection was turned away at the limit while a connection that had already ended (closed by the server) was still counted"}
+                                ELSE {})
          /\ drift' = drift \cup Tag(IF mx > 0 /\ e.count < mx THEN {"a connection was rejected below the limit"} ELSE {})
-         /\ UNCHANGED <<o, bad, dev>>
+         /\ UNCHANGED <<o, dev>>
+    [] e.ev = "cl.dead" ->
+         /\ o' = [o EXCEPT !.dead = @ \cup {e.c}]
+         /\ UNCHANGED <<bad, dev, drift, stats>>
     [] e.ev = "cm.unreg" ->
          LET a2 == o.act \ {e.c}
              w == (IF e.c \notin o.act THEN {"a connection was uncounted twice, or without having been counted"} ELSE {})
